@@ -25,23 +25,25 @@ def run(ctx):
     thorough = ctx.tier == 'thorough'
     exe = lc.build(ctx)
     # E1 ---------------------------------------------------------------------------------------
-    ctx.check_model(lc.SPEC, 'MCParForApi.tla', 'MC_api_inter_thorough.cfg' if thorough else 'MC_api_inter.cfg', WHAT,
-                    label='all interleavings of the body invocations', workers=4, timeout=1500)
-    ctx.check_model(lc.SPEC, 'MCParForApi.tla', 'MC_api_seq_thorough.cfg' if thorough else 'MC_api_seq.cfg', WHAT,
-                    label='overlap-free schedules, wide parameter domain', workers=4, timeout=1500)
-    lc.negative_control(ctx, 'MCParForApi.tla', 'MC_api_neg_tail_c14.cfg',
-                        'original static no-wait tail on the caller shares states[0] with chunk 0', 'OneBodyPerState')
+    if not lc.SKIP_E1:   # (mutation runs of the dispenso code skip the code-independent model checking)
+        ctx.check_model(lc.SPEC, 'MCParForApi.tla', 'MC_api_inter_thorough.cfg' if thorough else 'MC_api_inter.cfg', WHAT,
+                        label='all interleavings of the body invocations', workers=4, timeout=1500)
+        ctx.check_model(lc.SPEC, 'MCParForApi.tla', 'MC_api_seq_thorough.cfg' if thorough else 'MC_api_seq.cfg', WHAT,
+                        label='overlap-free schedules, wide parameter domain', workers=4, timeout=1500)
+        lc.negative_control(ctx, 'MCParForApi.tla', 'MC_api_neg_tail_c14.cfg',
+                            'original static no-wait tail on the caller shares states[0] with chunk 0', 'OneBodyPerState')
     # E3/E4 ------------------------------------------------------------------------------------
     rng = random.Random(ctx.seed)
     scens = lc.PF_REGRESSION + [lc.pf_scenario(rng) for _ in range(120 if thorough else 26)]
     tr, done, _ = lc.run_controlled(ctx, exe, scens, 8 if thorough else 3, ctx.seed, WHAT, MOD, CFG,
-                                    'controlled executions of parallel_for')
+                                    'controlled executions of parallel_for', validate=False)
     ctx.sample({'scenarios': scens[:12]})
     ctx.sample_trace(tr, 10, skip=16)
     big = [s.replace('N=2', 'N=8').replace('N=3,', 'N=8,').replace('N=1,', 'N=3,') for s in lc.PF_REGRESSION[:7]] + \
         [lc.pf_scenario(rng, big=True) for _ in range(150 if thorough else 30)]
     trf, donef, _ = lc.run_free(ctx, exe, big, 6 if thorough else 2, ctx.seed, WHAT, MOD, CFG,
-                                'free-running parallel_for with rendezvous bodies')
+                                'free-running parallel_for with rendezvous bodies', validate=False)
+    lc.validate_all(ctx, [(tr, done), (trf, donef)], WHAT, MOD, CFG, 'controlled + free-running executions of parallel_for')
     ctx.sample_trace(trf, 8, skip=1)
     ctx.cov['evaluations'] = done + donef
     ctx.cov['peak_concurrent_bodies_observed'] = max(lc.peak_concurrency(tr), lc.peak_concurrency(trf))
